@@ -60,11 +60,11 @@ def nostd_batch(ctx, tier):
         if i in fail or c["vars"] or c["upd"] or c["ret"]:
             continue
         smods.append((f"s{i}", StructCase(i, c).items_only()))
-    if len(smods) > 8000:
+    if len(smods) > 4000:
         # one library crate cannot be sharded: a seeded sample keeps rustc within memory in the thorough tier
         import random
-        smods = random.Random(1).sample(smods, 8000)
-        ctx.notes.append("no_std batch: seeded sample of 8000 struct-stream cases")
+        smods = random.Random(1).sample(smods, 4000)
+        ctx.notes.append("no_std batch: seeded sample of 4000 struct-stream cases")
     mods += smods
     r = core.tlc("MC_C03", "MC_C03_q1", workers=8)
     ctx.add_tlc(r)
